@@ -52,6 +52,7 @@ type taskModel struct {
 	prevWorkerKey   string
 	retried         bool
 	acceptedAttempt string
+	prevAttempt     string
 	mismatch        int // Synchronize requests of the assigned worker that did not report this task, since assignment
 	expectInternal  int // step in which the retry limit was exceeded, or 0
 	requeues        int
@@ -484,9 +485,22 @@ func (m *model) observe() {
 				w.failf("C06: worker asked %d times for task %s without reporting it (retry count %d), but the task was not failed with INTERNAL (stage %s, response %v)", t.mismatch, t.actionID, w.cfg.RetryCount, vt.Stage, vt.ExecuteResponse)
 			}
 		}
+		attempt := ""
+		if vt.DesiredState != nil && vt.DesiredState.Action != nil {
+			attempt = attemptKind(vt.DesiredState)
+		}
+		if vt.WorkerKey != "" && (vt.WorkerKey != t.prevWorkerKey || vt.QueueName != t.prevQueue || attempt != t.prevAttempt || t.prevStage != remoteexecution.ExecutionStage_EXECUTING) {
+			// The scheduler assigned the task to a worker in this step
+			// (possibly without the worker learning it, when its
+			// Synchronize call was cancelled at the same moment): the
+			// redelivery count starts afresh.
+			t.mismatch = 0
+			t.expectInternal = 0
+		}
 		t.prevStage = vt.Stage
 		t.prevQueue = vt.QueueName
 		t.prevWorkerKey = vt.WorkerKey
+		t.prevAttempt = attempt
 	}
 	for name, op := range m.ops {
 		if !present[name] && !op.removed {
@@ -829,6 +843,13 @@ func (m *model) observeSyncs(snap *scheduler.VerifSnapshot, now time.Time) {
 		case *remoteworker.DesiredState_Idle:
 			wk.believes = nil
 			m.label("sync_idle")
+			// C01: a worker is only told to be idle if no task is
+			// assigned to it.
+			for _, x := range snap.Workers {
+				if x.Key == workerKeyOf(wk) && x.QueueName == m.queueNameOf(wk) && x.CurrentTask != nil {
+					w.failf("C01: worker %d was told to go idle, but the scheduler has task %s assigned to it (stage %s)", wk.idx, actionIDOf(x.CurrentTask.DesiredState), x.CurrentTask.Stage)
+				}
+			}
 		case *remoteworker.DesiredState_Executing_:
 			ex := ds.Executing
 			aid, kind := actionIDOf(ex), attemptKind(ex)
@@ -889,8 +910,6 @@ func (m *model) observeSyncs(snap *scheduler.VerifSnapshot, now time.Time) {
 			if newAssignment {
 				t.assigned = wk
 				t.reissues = 0
-				t.mismatch = 0
-				t.expectInternal = 0
 				m.label("assignment")
 				if kind == "retry" {
 					m.label("assignment_retry")
@@ -1040,7 +1059,7 @@ func (m *model) observeTerminates() {
 			m.w.mu.Lock()
 			returned := res.returned
 			m.w.mu.Unlock()
-			if !returned && !m.w.clk.Now().Before(res.startTime.Add(idleSyncInterval)) {
+			if !returned && m.w.clk.Now().After(res.startTime.Add(idleSyncInterval)) {
 				m.w.failf("C06: Synchronize of worker %d has been blocked since %s, longer than the idle synchronization interval", wk.idx, res.startTime.Sub(m.startAt))
 			}
 		}
